@@ -96,6 +96,63 @@ func main() {
 				}
 				return false
 			}
+			// classify an access by its context: walk up through &, parens, conversions, index expressions
+			classify := func(start ast.Node) string {
+				kind := "read"
+				var cur ast.Node = start
+				addr := false
+				for {
+					par := parents[cur]
+					switch pp := par.(type) {
+					case *ast.ParenExpr:
+						cur = pp
+						continue
+					case *ast.IndexExpr:
+						if pp.X == cur {
+							cur = pp
+							continue
+						}
+					case *ast.UnaryExpr:
+						if pp.Op == token.AND {
+							addr = true
+							cur = pp
+							continue
+						}
+					case *ast.CallExpr:
+						if addr {
+							if isAtomicCall(pp) {
+								kind = "atomic"
+							} else if len(pp.Args) == 1 && pp.Args[0] == cur {
+								// conversion such as (*unsafe.Pointer)(unsafe.Pointer(&x.f))
+								if tv, ok := p.TypesInfo.Types[pp.Fun]; ok && tv.IsType() {
+									cur = pp
+									continue
+								}
+								kind = "write" // address escapes into a non-atomic call
+							} else {
+								kind = "write"
+							}
+						}
+					case *ast.AssignStmt:
+						for _, l := range pp.Lhs {
+							if l == cur {
+								kind = "write"
+							}
+						}
+						if addr && kind == "read" {
+							kind = "write"
+						}
+					case *ast.IncDecStmt:
+						kind = "write"
+					default:
+						if addr {
+							kind = "write"
+						}
+					}
+					break
+				}
+				return kind
+			}
 			ast.Inspect(f, func(n ast.Node) bool {
 				switch x := n.(type) {
 				case *ast.CompositeLit:
@@ -122,6 +179,21 @@ func main() {
 							out = append(out, acc{short, "sync", recv, enclosing(x), "sync:" + se.Sel.Name})
 						}
 					}
+				case *ast.Ident:
+					// package-level variables of the library (not struct fields): immutable after initialisation unless declared otherwise
+					v, ok := p.TypesInfo.Uses[x].(*types.Var)
+					if !ok || v.IsField() || v.Pkg() == nil || !strings.HasPrefix(v.Pkg().Path(), "go.linecorp.com/garr") || v.Parent() != v.Pkg().Scope() {
+						return true
+					}
+					if syncType(v.Type()) {
+						return true
+					}
+					var node ast.Node = x
+					if se, ok := parents[x].(*ast.SelectorExpr); ok && se.Sel == x {
+						node = se // pkg.Var
+					}
+					vp := v.Pkg().Path()
+					out = append(out, acc{vp[strings.LastIndex(vp, "/")+1:], "<pkgvar>", v.Name(), enclosing(x), classify(node)})
 				case *ast.SelectorExpr:
 					sel := p.TypesInfo.Selections[x]
 					if sel == nil || sel.Kind() != types.FieldVal {
@@ -142,60 +214,7 @@ func main() {
 					if syncType(fld.Type()) {
 						return true // accesses to the sync object itself are recorded as sync:<Method>
 					}
-					// classify by context: walk up through &, parens, conversions, index expressions
-					kind := "read"
-					var cur ast.Node = x
-					addr := false
-					for {
-						par := parents[cur]
-						switch pp := par.(type) {
-						case *ast.ParenExpr:
-							cur = pp
-							continue
-						case *ast.IndexExpr:
-							if pp.X == cur {
-								cur = pp
-								continue
-							}
-						case *ast.UnaryExpr:
-							if pp.Op == token.AND {
-								addr = true
-								cur = pp
-								continue
-							}
-						case *ast.CallExpr:
-							if addr {
-								if isAtomicCall(pp) {
-									kind = "atomic"
-								} else if len(pp.Args) == 1 && pp.Args[0] == cur {
-									// conversion such as (*unsafe.Pointer)(unsafe.Pointer(&x.f))
-									if tv, ok := p.TypesInfo.Types[pp.Fun]; ok && tv.IsType() {
-										cur = pp
-										continue
-									}
-									kind = "write" // address escapes into a non-atomic call
-								} else {
-									kind = "write"
-								}
-							}
-						case *ast.AssignStmt:
-							for _, l := range pp.Lhs {
-								if l == cur {
-									kind = "write"
-								}
-							}
-							if addr && kind == "read" {
-								kind = "write"
-							}
-						case *ast.IncDecStmt:
-							kind = "write"
-						default:
-							if addr {
-								kind = "write"
-							}
-						}
-						break
-					}
+					kind := classify(x)
 					out = append(out, acc{short, tname, fld.Name(), enclosing(x), kind})
 				}
 				return true
